@@ -21,11 +21,26 @@ def flag_sets():
     return out
 
 
+_FLAGS_OBJ = set()
+
+
 def lib_flags(fs):
+    """The caller's flags object is ONE set for the whole process, emptied and refilled in place before every call (a
+    caller that keeps one flags set and adds / removes flags between verifications); its contents after the call must
+    be what was passed in (flags_intact)."""
     from bitcoin.core import scripteval as SE
     m = {RI.P2SH: SE.SCRIPT_VERIFY_P2SH, RI.NULLDUMMY: SE.SCRIPT_VERIFY_NULLDUMMY, RI.CLEANSTACK: SE.SCRIPT_VERIFY_CLEANSTACK,
          RI.DISCOURAGE: SE.SCRIPT_VERIFY_DISCOURAGE_UPGRADABLE_NOPS}
-    return set(m[f] for f in fs)
+    _FLAGS_OBJ.clear()
+    _FLAGS_OBJ.update(m[f] for f in fs)
+    return _FLAGS_OBJ
+
+
+def flags_intact(fs):
+    from bitcoin.core import scripteval as SE
+    m = {RI.P2SH: SE.SCRIPT_VERIFY_P2SH, RI.NULLDUMMY: SE.SCRIPT_VERIFY_NULLDUMMY, RI.CLEANSTACK: SE.SCRIPT_VERIFY_CLEANSTACK,
+         RI.DISCOURAGE: SE.SCRIPT_VERIFY_DISCOURAGE_UPGRADABLE_NOPS}
+    return _FLAGS_OBJ == set(m[f] for f in fs)
 
 
 TX_MODEL = C.default_tx(2, 2)
@@ -75,6 +90,8 @@ def run_lib_eval(script, init, fs, tx=None, idx=0):
         return ('fail', type(e).__name__)
     except Exception as e:  # noqa
         return ('EXC', '%s: %s' % (type(e).__name__, str(e)[:80]))
+    if not flags_intact(fs):
+        return ('EXC', 'the caller\'s flags set was modified')
     return ('ok', tuple(bytes(x) for x in st))
 
 
@@ -97,6 +114,8 @@ def run_lib_verify(sig, pk, fs, tx=None, idx=0):
         return ('fail', type(e).__name__)
     except Exception as e:  # noqa
         return ('EXC', '%s: %s' % (type(e).__name__, str(e)[:80]))
+    if not flags_intact(fs):
+        return ('EXC', 'the caller\'s flags set was modified')
     return ('ok',)
 
 
